@@ -17,7 +17,7 @@ type jsonDesc struct {
 	notes  []string
 }
 
-func (d *jsonDesc) add(t string) { d.tokens[t] = true }
+func (d *jsonDesc) add(t string)      { d.tokens[t] = true }
 func (d *jsonDesc) has(t string) bool { return d.tokens[t] }
 func (d *jsonDesc) String() string {
 	var ks []string
